@@ -115,6 +115,24 @@ theorem vterm_refines_editor (cap depth : Nat) (hcap : 1 ≤ cap) (hd : 1 ≤ de
     v.nrl.state = r.esc := by
   exact editor_of_sim cap depth _ _ (run_sim cap depth hd hd2 _ _ keys (init_sim cap depth hcap hd hd2 cxx prompt))
 
+/-- WHAT THE RETURN CODES MEAN.  In every reachable state of the terminal's
+readline (after any key sequence) the code `readline_putchar` answers to the
+next byte classifies the reference editor's transition: ECHOCHAR = `c` was
+inserted at the cursor; BACKSPACE / DELETE = the character before / at the
+cursor was removed; LEFT / RIGHT = the cursor moved; UPDATELINE = another
+history line was loaded (cursor at its end, `lastsize` = the old cursor);
+NOTHING / OVERFLOW = the line is unchanged; NEWLINE = the line is unchanged and
+accepted — and NEWLINE is answered exactly when the reference accepts a line. -/
+theorem readline_codes (cap depth : Nat) (hcap : 1 ≤ cap) (hd : 1 ≤ depth) (hd2 : depth ≤ 255) (cxx : Bool)
+    (prompt : List Byte) (keys : List Byte) (c : Byte) :
+    let rl := ((Vterm.init cap depth cxx prompt).run keys).nrl
+    let r := (Ref.init depth).run cap keys
+    EchoRel c (rl.putchar c).2 (rl.putchar c).1.lastsize r.z (r.rlKey cap c).1.z ∧
+    ((rl.putchar c).2 = RL_NEWLINE → (r.rlKey cap c).2 = some r.z.line) ∧
+    ((rl.putchar c).2 ≠ RL_NEWLINE → (r.rlKey cap c).2 = none) := by
+  have h := run_sim cap depth hd hd2 _ _ keys (init_sim cap depth hcap hd hd2 cxx prompt)
+  exact (rstep cap depth hd hd2 _ _ c h.sim).2
+
 /-! ### history recall -/
 
 /-- HISTORY RECALL RETURNS THE ENTERED LINES IN ORDER.  Enter `n` lines (each
